@@ -981,6 +981,69 @@ def gen_source(rng, avoid):
     return "class Main {\n" + "\n".join(fns) + "}\n"
 
 
+def gen_source_e2e(rng):
+    """Programs for the end-to-end stream (real compile_sources vs un-optimised build, run under Node):
+    counted tail-recursive loops with derived values, lambdas called inside the loop (0-3 calls per
+    iteration), a method reference passed as a function value, call results that are not used."""
+    r = rng
+    ncalls = r.range(0, 3)
+    m, c = r.range(2, 5), r.range(0, 4)
+    bound = r.range(3, 12)
+    calls = ["f(i * %d)" % m, "g(acc)", "f(i + %d)" % c][:ncalls]
+    acc_next = "acc" + "".join(f" + {x}" for x in calls) + (f" + i * {m}" if r.chance(1, 2) or not calls else "")
+    body = []
+    if r.chance(2, 3):
+        body.append(f"let _ = Process.println(Str.fromInt(i * {m} + {c}));")
+    if r.chance(1, 2):
+        body.append("let _ = Main.helper(i);")                       # unused call result
+    if r.chance(1, 2):
+        body.append("let _ = Main.boxed(i);")                        # unused pointer-typed result
+    if r.chance(1, 3) and ncalls:
+        body.append("let _ = Process.println(Str.fromInt(g(i)));")
+    walk = ("  function walk(f: (int) -> int, g: (int) -> int, i: int, acc: int): int =\n"
+            f"    if i >= {bound} {{\n      acc\n    }} else {{\n      " + "\n      ".join(body) +
+            f"\n      Main.walk(f, g, i + {r.range(1, 2)}, {acc_next})\n    }}\n")
+    second = ""
+    call2 = ""
+    if r.chance(1, 2):
+        second = ("  function count(i: int, j: int, acc: int): int =\n"
+                  f"    if i < {r.range(4, 9)} {{\n      Main.count(i + 1, j + {r.range(2, 6)}, acc + (j * {r.range(2, 4)} + 1))\n    }} else {{ acc }}\n")
+        call2 = "    let _ = Process.println(Str.fromInt(Main.count(start, start + 7, 0)));\n"
+    helper = "  function helper(x: int): int = x * 2 + 1\n\n  function boxed(x: int): Str = Str.fromInt(x)\n"
+    lam = r.pick(["(x0) -> x0 * 2 + k", "(x0) -> x0 + k", "(x0) -> k - x0"])
+    gval = r.pick(["Main.helper", "(y0) -> y0 + 1", "(y0) -> Main.helper(y0) - k"])
+    main = ("  function main(): unit = {\n    let start = \"0\".toInt();\n    let k = \"7\".toInt();\n"
+            f"    let _ = Process.println(Str.fromInt(Main.walk({lam}, {gval}, start, {r.range(0, 3)})));\n" + call2 +
+            "    Process.println(\"done\")\n  }\n")
+    return "class Main {\n" + walk + "\n" + second + "\n" + helper + "\n" + main + "}\n"
+
+
+def check_e2e(ctx, progs, cfgs, run_ts, label):
+    lines = [f"e2e {','.join(map(str, cfgs))} {1 if run_ts else 0} | | {t.encode().hex()}" for t in progs]
+    out = run_harness(lines)
+    stats = {"compared": 0, "programs": 0, "no_node": 0, "rejected": 0}
+    for text, ans in zip(progs, out):
+        if ans.startswith("ok "):
+            stats["programs"] += 1
+            m = re.search(r"compared=(\d+)", ans)
+            stats["compared"] += int(m.group(1)) if m else 0
+        elif ans == "no-node":
+            stats["no_node"] += 1
+        elif ans.startswith("bad-program"):
+            stats["rejected"] += 1
+            if stats["rejected"] == 1:
+                ctx.violation("generated end-to-end program rejected by the front end (generator out of date): " + ans[:200],
+                              {"protocol": "e2e", "label": label, "source": text, "answer": ans}, no_input=True)
+        elif ans.startswith("invariant"):
+            ctx.violation("optimize_sources leaves the heap's temporary-name counter behind names it issued itself "
+                          "(the next phase re-issues them): " + ans[:240],
+                          {"protocol": "e2e", "label": label, "configs": cfgs, "source": text, "answer": ans})
+        else:
+            ctx.violation("the optimised build behaves differently from the un-optimised build of the same program under Node: " + ans[:300],
+                          {"protocol": "e2e", "label": label, "configs": cfgs, "source": text, "answer": ans})
+    return stats
+
+
 def check_sources(ctx, cases, label):
     """cases: list of (pass, cfg, source text)."""
     lines = [f"srcprog {p} {c} | | {t.encode().hex()}" for p, c, t in cases]
@@ -1363,6 +1426,9 @@ def check_programs(ctx, cases, label):
                     break
         if fid and finding(ctx, fid):
             ctx.known(finding(ctx, fid))
+        elif ans2.startswith("panic temp-counter-stale"):
+            ctx.violation("optimize_sources leaves the heap's temporary-name counter behind names it issued itself "
+                          f"(later phases will re-issue them): {ans2[6:200]}", payload)
         elif ans2.startswith("panic"):
             ctx.violation(f"optimisation pass `{p}` (config {c}) panics on a generated MIR program: {ans2[:160]}", payload)
         elif ans2.startswith("diff"):
@@ -1483,8 +1549,24 @@ def run(ctx):
         sstats["changed"] |= st["changed"]
         for kk in ("compared", "lines", "timeouts", "rejected"):
             sstats[kk] += st[kk]
+    # 5. end-to-end: the shipped compile_sources and other configurations vs the un-optimised build, under Node
+    ne2e = (ctx.scale(6, 40) if only in ("", "e2e") else 0)
+    estats = {"compared": 0, "programs": 0, "no_node": 0, "rejected": 0}
+    e2e_sample = None
+    for k in range(ne2e):
+        if len(ctx.violations) >= 3:
+            break
+        text = gen_source_e2e(rng.fork())
+        e2e_sample = e2e_sample or text
+        cfgs = ["real", rng.below(32), rng.pick([4, 6, 12, 20, 28, 31])] if ctx.quick else ["real"] + list(range(32))
+        st = check_e2e(ctx, [text], cfgs, run_ts=(k < 3 or not ctx.quick), label=f"generated seed={ctx.seed}")
+        for kk in estats:
+            estats[kk] += st[kk]
+    if estats["no_node"]:
+        ctx.assumptions.append("Node >= 22 not found: the end-to-end stream did not run")
     ksample = [{"line": l, "impl_answer": a} for l, a in list(zip(lines, kimpl))[:4]]
     ctx.cov.update({
+        "e2e_programs": estats["programs"], "e2e_builds_run_and_compared": estats["compared"], "e2e_sample": e2e_sample,
         "evaluations": len(lines) + len(cases) + len(scases),
         "distinct_nontrivial": len(kstats["nontrivial"]) + len(pstats["changed"]) + len(sstats["changed"]),
         "source_program_cases": len(scases),
@@ -1497,7 +1579,7 @@ def run(ctx):
                 "generated int-only MIR programs (straight-line, if/else with phis, single-if, counting loops of all four guard kinds and both stride "
                 "signs, empty loops for the closed form, IV-elimination candidates, loops with 2-3 basic induction variables with distinct literal/parameter starts and derived variables of any of them live in prints/calls/accumulators, duplicated pure computations whose copy feeds every consuming position (call argument, operand, condition, if/else final assignment, break value, loop initial/loop value, return value), helper functions for inlining) run before/after each single pass, "
                 "the per-function round driver and optimize_sources (quick: 2 of the 32 configurations per program, thorough: all 32) over 8 argument "
-                "tuples incl. MIN/MAX; MIR compiled from generated samlang sources (tail-recursive functions with several counters, functions whose exit value recomputes / logs the expression of their exit test) through the real front end, run before/after every pass. Non-trivial = distinct kernel line on which a non-default rule fired (folded / merged / reordered / positive trip "
+                "tuples incl. MIN/MAX; MIR compiled from generated samlang sources (tail-recursive functions with several counters, functions whose exit value recomputes / logs the expression of their exit test) through the real front end, run before/after every pass; after every optimize_sources the invariant `heap's next temporary id > every _tN the optimised program defines` is checked; end-to-end programs (counted loops with derived values, lambdas called in the loop, method references, unused call results) are built by the shipped compile_sources and by other configurations and run under Node against the un-optimised build. Non-trivial = distinct kernel line on which a non-default rule fired (folded / merged / reordered / positive trip "
                 "count / bind / loop with >=1 iteration) plus distinct (program, pass, config) whose MIR text was actually changed by the pass.",
         "samples": ksample + samples,
         "traces_validated_against_impl": len(lines),
@@ -1520,7 +1602,8 @@ def run(ctx):
                                    "strength_sound", "strength_multi_sound", "strength_multi_trace", "loopopt_strength_path_sound",
                                    "tripcount_exact", "tripcount_final_value", "dce_preserves", "licm_no_new_trap",
                                    "lvnSimple_preserves", "lvn_preserves", "lvnL_preserves", "iterLoop_preserves", "lvnLoop_preserves",
-                                   "cse_hoist_order", "inlineBody_preserves", "inline_preserves", "ivelim_negative_multiplier_fixed"],
+                                   "cse_hoist_order", "inlineBody_preserves", "inline_preserves", "ivelim_negative_multiplier_fixed",
+                                   "phases_disjoint", "rounds_invariant", "lowering_disjoint"],
         "pending": ["CSE: only trap-freedom/silence of the hoisted prefix is proved (cse_hoist_order); value equivalence of the rewritten branches is validated only",
                     "lvn: proved for blocks of Binary/call/Break, SingleIf and IfElse (with final assignments) over statement blocks, and for a While over such a body (initial values, loop values, every fuel); deeper nesting (loops inside branches, branches inside branches) is validated only",
                     "inlining: proved for a callee whose body is a block of Binary/call statements (fresh-name renaming, parameter substitution, return move); callee bodies with control flow, the cost model and recursion guards are validated only",
@@ -1537,6 +1620,7 @@ def run(ctx):
         "the real front end (parser, checker, HIR lowering, specialisation, tail-recursion rewrite) as producer of source-derived MIR",
         "hook H1 (cfg(samlang_verif) wrappers around the private functions; add-only)",
         "MIR interpreter in harness/src/bin/c02.rs (wasm i32 semantics incl. traps; prints as observable trace) and the Python re-implementation `tgt`",
+        "Node >= 22 and the real back ends for the end-to-end stream (shipped compile_sources and other configurations vs the un-optimised build)",
         "not modelled in Lean (validated by before/after execution only): CCP/loop drivers, LVN, CSE, DCE/LICM beyond straight-line blocks, inlining, unused-name elimination, scalar replacement"])
 
 
